@@ -5,6 +5,33 @@ HOOK_COMMITS = []
 # property id -> reason, for properties deliberately not claimed (default: not built yet)
 NOT_CLAIMED = {}
 
+NOTE_COMMON = ('Trusted: TLC 1.8.0 and the CommunityModules Json reader; the concretize/abstract functions of the '
+               'harness (DESIGN section 4); Python, pandas, pyarrow, unittest as environment. Exhaustive only inside '
+               'the stated bounds; beyond them the evidence is recorded traces judged by the specification.')
+
 
 def register(claim):
-    pass
+    claim('C10',
+          technique='TLA+ session model (RefTest.tla) + argv case analysis (Argv.tla), TLC exhaustive; '
+                    'every model transition replayed on the real ReferenceTest; recorded sessions validated '
+                    'by a TLC trace spec that reconstructs the regeneration table',
+          text='TLC checks OnlyOnRequest / NormalModeFrame / ExactlySelected / RegenThenPass on every reachable state of '
+               'the regeneration-table x reference-directory model and ImplFlags = SpecFlags on every well-shaped argv of '
+               '<= 3 (quick) or 4 (thorough) tokens over 22 spellings.  Every (state, action) pair of the model is '
+               'executed on the real code with real files for each assertion type, and random sessions of up to 30 '
+               'calls are recorded and accepted or rejected line by line by Trace_RefTest.  A history-dependent change '
+               '(e.g. the table being polluted by a lookup) is rejected because the spec, not the log, carries the table.',
+          note=NOTE_COMMON + ' Known finding D23 (parquet round trip changes object/datetime64[s] dtypes) is listed in '
+               'known_findings.json.',
+          ref='DESIGN.md section 5, C10')
+    claim('C19',
+          technique='TLA+ case analysis (Argv.tla: transcription of the argv scanner and tagged loader vs the '
+                    'documented meaning), TLC exhaustive; case tables replayed on real ReferenceTestCase.main runs; '
+                    'recorded runs judged by Trace_Argv',
+          text='TLC enumerates every argv of <= 3/4 tokens over a 22-token vocabulary and every module of <= 2 classes x '
+               '<= 2 tests x tag bits x class-name selections, checks transcription = specification, and writes the case '
+               'tables; the harness runs each well-shaped argv through the real scanner and (argv, module) pairs through '
+               'real unittest runs of generated modules, and validates random larger runs (4 classes, inheritance, richer '
+               'flag bundles) against the specification.',
+          note=NOTE_COMMON + ' Command lines are restricted to the WellShaped predicate of Argv.tla (DESIGN Appendix A).',
+          ref='DESIGN.md section 5, C19')
